@@ -65,7 +65,9 @@ def build_go():
         key = tree_hash(repo_sources() + hsrc)
         stamp = os.path.join(BUILD, "go.stamp")
         binp, harn = os.path.join(BUILD, "gopatch"), os.path.join(BUILD, "zzverif")
-        if os.path.exists(stamp) and open(stamp).read() == key and os.path.exists(binp) and os.path.exists(harn):
+        if os.path.exists(stamp) and open(stamp).read() == key and os.path.exists(binp) and os.path.exists(harn) and \
+                os.path.exists(os.path.join(BUILD, "schema.sx")):
+            os.environ["VERIF_SCHEMA"] = os.path.join(BUILD, "schema.sx")
             return binp, harn
         for p in (binp, harn, stamp):
             if os.path.exists(p):
@@ -80,8 +82,15 @@ def build_go():
         r = run(["go", "build", "-tags", "verif", "-overlay", ovp, "-o", harn, "./internal/zzverif"], cwd=REPO, env=GOENV)
         if r.returncode != 0:
             raise BuildError("harness does not build against the tree:\n" + r.stderr)
+        # the structure of go/ast as reflection shows it, for the driver's typing check (VERIF_SCHEMA)
+        r = run([harn, "schema"])
+        if r.returncode != 0 or not r.stdout.startswith("(schema"):
+            raise BuildError("harness schema command failed:\n" + r.stderr[-1000:])
+        with open(os.path.join(BUILD, "schema.sx"), "w") as f:
+            f.write(r.stdout)
         with open(stamp, "w") as f:
             f.write(key)
+        os.environ["VERIF_SCHEMA"] = os.path.join(BUILD, "schema.sx")
         return binp, harn
 
 def build_lean(targets=()):
